@@ -207,18 +207,12 @@ def rule_plumbing(ctx):
     if vw is None:
         ctx.missing(R, "SSAStatement::variables_written")
     else:
-        from astlib import result_expr
+        from astlib import collection_form
 
-        t = result_expr(vw)
-        chain = []
-        r = strip(t) if t is not None else None
-        while r is not None and r["k"] == "MethodCall":
-            chain.append(r["method"])
-            r = strip(r["recv"])
-        base = render(r).replace(" ", "") if r is not None else "?"
-        narrowing = [m_ for m_ in chain if m_ in ("filter", "filter_map", "take", "skip", "take_while", "skip_while", "step_by")]
-        ok = base in ("VariableMeta::locals_written(self)", "self.locals_written()") and "map" in chain and not narrowing and any(c_["k"] == "MethodCall" and c_["method"] == "name" for c_ in walk(t))
-        ctx.check(R, "SSAStatement::variables_written/all-locals-written", ok, "%s .%s" % (base, ".".join(reversed(chain))), site(SI, vw))
+        cf = collection_form(vw)
+        # the set of names of all locals the statement writes: no filter, every element mapped to its name
+        ok = cf is not None and cf[0] in ("VariableMeta::locals_written(self)", "self.locals_written()") and cf[1] in ("$x.name()", "$x.name().clone()") and not cf[2]
+        ctx.check(R, "SSAStatement::variables_written/all-locals-written", ok, "reads as (source, element, filters) = %s" % (cf,), site(SI, vw))
 
 
 def rule_phis_and_locals(ctx):
